@@ -452,6 +452,9 @@ fn run_case(w: &World, c: &[u64]) -> Option<(Vec<u64>, Vec<u64>)> {
                 let rt = match TransportManager::verif_route(&real) {
                     Some(SupportedTransport::Tcp) => 0,
                     Some(SupportedTransport::WebSocket) => 1,
+                    // only when the harness is built with its optional `quic` feature (C07's QUIC stream)
+                    #[cfg(feature = "quic")]
+                    Some(SupportedTransport::Quic) => 2,
                     None => 9,
                 };
                 out.extend([4, sup as u64, rt]);
